@@ -166,13 +166,17 @@ def bytesToBits (v : Bytes) : List Bool := v.flatMap (fun b => bitsOf b.toNat 8)
 def matchSym (bits : List Bool) : Option (Nat × List Bool) :=
   (symTable.find? (fun e => (bitsOf e.2.1 e.2.2).isPrefixOf bits)).map (fun e => (e.1, bits.drop e.2.2))
 
+/-- one step of the greedy decoder on the result of `matchSym` (a separate function: a `match` on `matchSym bits`
+inside the recursion makes Lean's equation-lemma generation evaluate the 256-entry table) -/
+def decodeStep (m : Option (Nat × List Bool)) (bits : List Bool) (acc : Bytes) (k : List Bool → Bytes → Option Bytes) : Option Bytes :=
+  match m with
+  | some (sym, rest) => k rest (UInt8.ofNat sym :: acc)
+  | none => if bits.length < 8 ∧ bits.all id then some acc.reverse else none
+
 /-- greedy prefix decoding; what is left must be fewer than 8 one-bits (a prefix of EOS) -/
 def decodeBits : Nat → List Bool → Bytes → Option Bytes
   | 0, _, _ => none
-  | fuel + 1, bits, acc =>
-    match matchSym bits with
-    | some (sym, rest) => decodeBits fuel rest (UInt8.ofNat sym :: acc)
-    | none => if bits.length < 8 ∧ bits.all id then some acc.reverse else none
+  | fuel + 1, bits, acc => decodeStep (matchSym bits) bits acc (decodeBits fuel)
 
 def decodeSpec (v : Bytes) : Option Bytes := decodeBits (8 * v.length + 1) (bytesToBits v) []
 
